@@ -11,9 +11,10 @@
        Both start with the fast path `Na == Nb and np.all(aq == bq)`.
    (b) the q_map construction of `LegPipe._init_from_legs` (charges.py / LegPipe__init_from_legs).
 
-   Tie to the code: these definitions are NOT evaluated by harness/c04.py (no check_* function uses them); they
-   are hand transcriptions of the two sources.  They reuse the correspondence-checked kernels of
-   Model/KernelsPyCy.v (make_valid_py/_cy, frd_py/_cy = _find_row_differences, fill) as sub-routines. *)
+   Tie to the code: hand transcriptions of the two sources, evaluated by harness/c04.py against BOTH
+   configurations: (b) by Model/KernelsPyCy2Check.v (check2_py / check2_cy, 'pipe' cases), (d) by
+   Model/KernelsPyCy3Check.v (check3_py / check3_cy, 'merge' cases).  They reuse the correspondence-checked
+   kernels of Model/KernelsPyCy.v (make_valid_py/_cy, frd_py/_cy = _find_row_differences, fill). *)
 From TenpyV Require Import Base.Prelude Model.KernelsPyCy.
 Open Scope Z_scope.
 
